@@ -353,8 +353,18 @@ pub struct SpatialTrackDistances {
 impl SpatialTrackDistances {
 	#[must_use]
 	pub(crate) fn relative_distance(&self, distance: f32) -> f32 {
-		let distance = distance.clamp(self.min_distance, self.max_distance);
-		(distance - self.min_distance) / (self.max_distance - self.min_distance)
+		if self.min_distance < self.max_distance {
+			let distance = distance.clamp(self.min_distance, self.max_distance);
+			(distance - self.min_distance) / (self.max_distance - self.min_distance)
+		} else if distance < self.min_distance {
+			// the maximum is not greater than the minimum, so there is no
+			// range to interpolate over: full volume within the minimum
+			// distance
+			0.0
+		} else {
+			// and inaudible from there on
+			1.0
+		}
 	}
 }
 
